@@ -77,3 +77,4 @@ Proof. unfold setf; cbn. by rewrite insert_length. Qed.
 Lemma jobs_setf s f c : jobs (setf s f c) = jobs s. Proof. done. Qed.
 Lemma getf_futs (s' s : state) f : s'.(futs) = s.(futs) -> getf s' f = getf s f.
 Proof. intros H. unfold getf. by rewrite H. Qed.
+Lemma getf_addlog' s l f : getf (addlog s l) f = getf s f. Proof. done. Qed.
